@@ -6,6 +6,7 @@ import PygModel.Slice
 import PygProofs.Lemmas.DfSliceLemmas
 import PygProofs.Lemmas.DfSliceNaLemmas
 import PygProofs.Lemmas.DfSliceBcastLemmas
+import PygProofs.Lemmas.DfSliceFrameLemmas
 
 namespace Pyg.Props.C13
 open Pyg Pyg.Slice
@@ -1337,5 +1338,247 @@ theorem stitch_length_mismatch (dfs : List TS) (ub : List Int) (oc : Option (Lis
     rw [key dfs ub rfl rfl]
   · simp only [stitch, normalise, hu, Bool.false_eq_true, if_false, bind, Except.bind, pure, Except.pure]
     rw [key dfs.reverse ub.reverse (by simp) (by simp)]
+
+/-! ### lists holding DataFrames and scalars; bound lists of times of day -/
+
+/-- the window of one piece in plain terms: both bracket tests - or, for two times of day with the start later than the
+    end, either of them (the window wraps past midnight, under every bracket pair: repaired code, C13-W2) -/
+theorem inWindowW_iff (l u : Bool) (lb ub : Bound) (t : Int) :
+    inWindowW l u lb ub t = true ↔
+      if wraps lb ub = true then (lbOk l lb t = true ∨ ubOk u ub t = true) else (lbOk l lb t = true ∧ ubOk u ub t = true) := by
+  unfold inWindowW
+  split <;> simp
+
+theorem wraps_iff (lb ub : Bound) : wraps lb ub = true ↔ ∃ a b, lb = .time a ∧ ub = .time b ∧ b < a := by
+  unfold wraps
+  split
+  · rename_i a b; simp
+  · rename_i h
+    simp only [Bool.false_eq_true, false_iff]
+    rintro ⟨a, b, rfl, rfl, _⟩
+    exact h a b rfl rfl
+
+/-- a list of Series with date bounds is the special case: the general model IS the model all theorems on `stitch` speak about -/
+theorem stitch_frames_series (dfs : List TS) (lb ub : Option (List Int)) (oc : Option (List Char)) (n : Nat) :
+    stitchM (dfs.map Member.series) .date lb ub oc n = stitch dfs lb ub oc n := stitchM_series_eq dfs lb ub oc n
+
+/-- a scalar member is the constant series on the boundaries `sorted(set(lb + ub))` (line 1687) ... -/
+theorem scalar_member (v : Option Int) (bs : List Int) :
+    Member.toFrame .date bs (.scalar v) = .ok ⟨1, bs.map fun t => (t, [v])⟩ := rfl
+
+/-- ... which are the bounds that occur in either list, each once, in increasing order; beside times of day it is an error -/
+theorem boundaries_iff (lbs ubs : List (Option Int)) (t : Int) :
+    t ∈ boundariesOf lbs ubs ↔ some t ∈ lbs ∨ some t ∈ ubs := mem_boundariesOf
+
+theorem boundaries_increasing (lbs ubs : List (Option Int)) : (boundariesOf lbs ubs).Pairwise (· < ·) := boundariesOf_sorted lbs ubs
+
+theorem scalar_member_tod (v : Option Int) (bs : List Int) : Member.toFrame .time bs (.scalar v) = .error .other := rfl
+
+/-- **stitch_source_frames** (`n > 1`): for a list of Series / DataFrames / scalars (`fs` = the members as frames, scalars
+    made constant series) and bound lists of either kind, a row `(t, vs)` is in the stitched frame exactly when for some piece
+    `i` the timestamp passes the window of piece `i` and is a timestamp of one of the members `i .. i+n-1`; the row then
+    holds the rows of those members at `t` side by side (NaN for a member without `t`), padded with NaN -/
+theorem stitch_source_frames (ms : List Member) (k : BKind) (lb ub : Option (List Int)) (oc : Option (List Char)) (n : Nat)
+    (hn : 1 < n) (l u : Bool) (hb : brackets oc = .ok (l, u)) (ms' : List Member) (lbs ubs : List (Option Int))
+    (hnorm : normalise ms lb ub = .ok (ms', lbs, ubs)) (fs : List Frame)
+    (hfs : ms'.mapM (Member.toFrame k (boundariesOf lbs ubs)) = .ok fs)
+    (h1 : lbs.length = fs.length) (h2 : ubs.length = fs.length) (htwo : 2 ≤ fs.length)
+    (F : Frame) (hF : stitchM ms k lb ub oc n = .ok (some F)) (t : Int) (vs : List (Option Int)) :
+    (t, vs) ∈ F.rows ↔ ∃ i, ∃ hl : i < lbs.length, ∃ hu : i < ubs.length,
+      (∃ f ∈ (fs.drop i).take n, t ∈ f.index) ∧
+      inWindowW l u (k.bound lbs[i]) (k.bound ubs[i]) t = true ∧
+      vs = padRow F.width (((fs.drop i).take n).flatMap (rowAt · t)) := by
+  have hpl := piecesM_length fs k lbs ubs n l u h1 h2
+  have hfl := framesOfF_length fs n
+  rw [stitchM_eq ms k lb ub oc n l u hb ms' lbs ubs hnorm fs hfs h1 h2 (framesOfF_sorted_cols fs n hn),
+    assemble_many _ (by omega)] at hF
+  cases hF
+  simp only [List.mem_flatMap, List.mem_map, Prod.mk.injEq]
+  constructor
+  · rintro ⟨f, hf, r, hr, rfl, rfl⟩
+    obtain ⟨i, hi, rfl⟩ := List.mem_iff_getElem.mp hf
+    rw [piecesM_getElem fs k lbs ubs n l u i hi (by omega) (by omega) (by omega),
+      framesOfF_getElem_cols fs n hn i (by omega)] at hr
+    simp only [List.mem_filter] at hr
+    obtain ⟨hmem, hw⟩ := hr
+    obtain ⟨hex, hval⟩ := mem_concatFrames.mp hmem
+    exact ⟨i, by omega, by omega, hex, hw, by rw [hval]⟩
+  · rintro ⟨i, hl, hu, hex, hw, rfl⟩
+    have hi : i < (piecesM fs k lbs ubs n l u).length := by omega
+    refine ⟨(piecesM fs k lbs ubs n l u)[i], List.getElem_mem hi, (t, ((fs.drop i).take n).flatMap (rowAt · t)), ?_, rfl, rfl⟩
+    rw [piecesM_getElem fs k lbs ubs n l u i hi (by omega) hl hu, framesOfF_getElem_cols fs n hn i (by omega)]
+    simp only [List.mem_filter]
+    exact ⟨mem_concatFrames.mpr ⟨hex, rfl⟩, hw⟩
+
+/-- the default `n = 1`: a row `(t, r)` of member `i` appears exactly when `t` passes the window of piece `i`
+    (members with strictly increasing indexes - needed where a time-of-day window wraps: `sort_index`) -/
+theorem stitch_source_frames_one (ms : List Member) (k : BKind) (lb ub : Option (List Int)) (oc : Option (List Char)) (n : Nat)
+    (hn : n ≤ 1) (l u : Bool) (hb : brackets oc = .ok (l, u)) (ms' : List Member) (lbs ubs : List (Option Int))
+    (hnorm : normalise ms lb ub = .ok (ms', lbs, ubs)) (fs : List Frame)
+    (hfs : ms'.mapM (Member.toFrame k (boundariesOf lbs ubs)) = .ok fs) (hs : ∀ f ∈ fs, SortedRows f)
+    (h1 : lbs.length = fs.length) (h2 : ubs.length = fs.length) (htwo : 2 ≤ fs.length)
+    (F : Frame) (hF : stitchM ms k lb ub oc n = .ok (some F)) (t : Int) (vs : List (Option Int)) :
+    (t, vs) ∈ F.rows ↔ ∃ i, ∃ hd : i < fs.length, ∃ hl : i < lbs.length, ∃ hu : i < ubs.length, ∃ r,
+      (t, r) ∈ fs[i].rows ∧ inWindowW l u (k.bound lbs[i]) (k.bound ubs[i]) t = true ∧ vs = padRow F.width r := by
+  have hpl := piecesM_length fs k lbs ubs n l u h1 h2
+  have hfl := framesOfF_length fs n
+  rw [stitchM_eq ms k lb ub oc n l u hb ms' lbs ubs hnorm fs hfs h1 h2 (framesOfF_sorted fs n hs),
+    assemble_many _ (by omega)] at hF
+  cases hF
+  simp only [List.mem_flatMap, List.mem_map, Prod.mk.injEq]
+  constructor
+  · rintro ⟨f, hf, r, hr, rfl, rfl⟩
+    obtain ⟨i, hi, rfl⟩ := List.mem_iff_getElem.mp hf
+    rw [piecesM_getElem fs k lbs ubs n l u i hi (by omega) (by omega) (by omega),
+      framesOfF_getElem_one fs n hn i (by omega) (by omega)] at hr
+    simp only [List.mem_filter] at hr
+    exact ⟨i, by omega, by omega, by omega, r.2, hr.1, hr.2, rfl⟩
+  · rintro ⟨i, hd, hl, hu, r, hr, hw, rfl⟩
+    have hi : i < (piecesM fs k lbs ubs n l u).length := by omega
+    refine ⟨(piecesM fs k lbs ubs n l u)[i], List.getElem_mem hi, (t, r), ?_, rfl, rfl⟩
+    rw [piecesM_getElem fs k lbs ubs n l u i hi (by omega) hl hu, framesOfF_getElem_one fs n hn i (by omega) hd]
+    simp only [List.mem_filter]
+    exact ⟨hr, hw⟩
+
+/-- dates in one bound list and times of day in the other: `TypeError` (after the direction checks) -/
+theorem stitch_mixed_kinds (ms : List Member) (l1 l2 : List Int) (oc : Option (List Char)) (n : Nat)
+    (h1 : l1 ≠ []) (h2 : l2 ≠ []) (hd : nonDecreasing l2 = nonDecreasing l1) :
+    stitchB ms (some (.date, l1)) (some (.time, l2)) oc n = .error .type := by
+  cases l1 with
+  | nil => exact absurd rfl h1
+  | cons a l1 =>
+    cases l2 with
+    | nil => exact absurd rfl h2
+    | cons b l2 =>
+      simp only [stitchB, Option.map_some, normalise, hd, bne_self_eq_false, Bool.false_eq_true, if_false]
+      split <;> rfl
+
+/-! evaluation tests (`mergeSort` does not reduce in the kernel): a Series, a two-column DataFrame and a scalar; a time-of-day
+    list whose second window 18:00 -> 06:00 wraps under the default `'(]'` -/
+#guard okEq (stitchM [.series [(0, some 1), (5, some 2)], .frame ⟨2, [(3, [some 7, none]), (6, [some 8, some 9])]⟩, .scalar (some 4)]
+    .date Option.none (some [2, 5, 9]) (some ['(', ']']) 1)
+  (some ⟨2, [(0, [some 1, none]), (3, [some 7, none]), (9, [some 4, none])]⟩)
+#guard okEq (stitchM [.series [(0, some 1), (5, some 2)], .frame ⟨2, [(3, [some 7, none]), (5, [some 8, some 9])]⟩]
+    .date Option.none (some [4, 9]) (some ['(', ']']) 2)
+  (some ⟨3, [(0, [some 1, none, none]), (3, [none, some 7, none]), (5, [some 8, some 9, none])]⟩)
+#guard okEq (stitchM [.series [(0, some 1), (6 * 3600000000, some 2)], .series [(0, some 10), (6 * 3600000000, some 20), (12 * 3600000000, some 30), (18 * 3600000000, some 40)]]
+    .time (some [0, 18 * 3600000000]) (some [6 * 3600000000, 6 * 3600000000]) (some ['(', ']']) 1)
+  (some ⟨1, [(6 * 3600000000, [some 2]), (0, [some 10]), (6 * 3600000000, [some 20])]⟩)
+
+/-! ### ONE series with bound lists -/
+
+/-- a single (non-list) series with a LIST of upper bounds and one lower bound `b0` (possibly `None`): `zipper` repeats the
+    series and the lower bound, the result is a python list holding, for every upper bound, the slice `(b0, ub[i]]` -/
+theorem slices_ub_list {α} (df : Rows α) (b0 : Bound) (bs : List Bound) (htwo : 2 ≤ bs.length) (oc : Option (List Char))
+    (l u : Bool) (hb : brackets oc = .ok (l, u))
+    (hs : ∀ b ∈ bs, wraps b0 b = true → df.Pairwise (fun x y => x.1 < y.1)) :
+    slicesOfSeries df (.one b0) (.list bs) oc = .ok (.many (bs.map fun b => df.filter fun r => inWindowW l u b0 b r.1)) := by
+  unfold slicesOfSeries
+  show (do let dlu ← zipper3 [df] [b0] bs; _) = _
+  rw [zipper3_single_left df b0 bs htwo]
+  simp only [bind, Except.bind]
+  rw [mapM_sliceWrap_eq df oc l u hb _ (by intro x hx; simp only [List.mem_map] at hx; obtain ⟨_, _, rfl⟩ := hx; rfl)
+    (by intro x hx; simp only [List.mem_map] at hx; obtain ⟨b, hb', rfl⟩ := hx; exact hs b hb')]
+  simp only [List.map_map, Function.comp_def]
+  match bs, htwo with
+  | _ :: _ :: _, _ => rfl
+
+/-- these slices are NESTED, not a partition: with date bounds `b ≤ b'` the slice up to `b` is contained in the slice up to `b'` -/
+theorem slices_nested {α} (df : Rows α) (l u : Bool) (b0 : Bound) (b b' : Int) (hbb : b ≤ b') :
+    (df.filter fun r => inWindowW l u b0 (.date b) r.1).Sublist (df.filter fun r => inWindowW l u b0 (.date b') r.1) := by
+  have hw : ∀ c, wraps b0 (.date c) = false := by intro c; cases b0 <;> rfl
+  have : (df.filter fun r => inWindowW l u b0 (.date b) r.1) =
+      (df.filter fun r => inWindowW l u b0 (.date b') r.1).filter fun r => inWindowW l u b0 (.date b) r.1 := by
+    rw [List.filter_filter]
+    apply List.filter_congr
+    intro x _
+    simp only [inWindowW, hw, Bool.false_eq_true, if_false]
+    cases h1 : lbOk l b0 x.1 <;> cases u <;> simp [ubOk] <;> omega
+  rw [this]
+  exact List.filter_sublist
+
+/-- the witness: `df_slice(ts, ub = [2, 5])` on the index `0, 3` hands back `[rows ≤ 2, rows ≤ 5]` - the row at `0` is in both
+    slices (so "the pieces partition the rows" is FALSE of a single series with an upper-bound list; it holds when both
+    bounds are lists and chained, `slices_chained_partition`) -/
+theorem slices_not_partition :
+    slicesOfSeries [((0 : Int), 'a'), (3, 'b')] (.one .none) (.list [.date 2, .date 5]) (some ['(', ']']) =
+      .ok (.many [[(0, 'a')], [(0, 'a'), (3, 'b')]]) := by rfl
+
+/-- with BOTH bounds given as lists of the same length the slices `(lb[i], ub[i]]` are concatenated (line 1699) -/
+theorem slices_both_lists {α} (df : Rows α) (as bs : List Bound) (hlen : as.length = bs.length) (htwo : 2 ≤ bs.length)
+    (oc : Option (List Char)) (l u : Bool) (hb : brackets oc = .ok (l, u))
+    (hs : ∀ x ∈ as.zip bs, wraps x.1 x.2 = true → df.Pairwise (fun x y => x.1 < y.1)) :
+    slicesOfSeries df (.list as) (.list bs) oc =
+      .ok (.one ((as.zip bs).flatMap fun x => df.filter fun r => inWindowW l u x.1 x.2 r.1)) := by
+  unfold slicesOfSeries
+  show (do let dlu ← zipper3 [df] as bs; _) = _
+  rw [zipper3_single_both df as bs hlen htwo]
+  simp only [bind, Except.bind]
+  rw [mapM_sliceWrap_eq df oc l u hb _ (by intro x hx; simp only [List.mem_map] at hx; obtain ⟨_, _, rfl⟩ := hx; rfl)
+    (by intro x hx; simp only [List.mem_map] at hx; obtain ⟨y, hy, rfl⟩ := hx; exact hs y hy)]
+  simp only [List.map_map, Function.comp_def]
+  have h2 : 2 ≤ (as.zip bs).length := by simp [hlen]; omega
+  generalize as.zip bs = L at h2
+  match L, h2 with
+  | _ :: _ :: _, _ => rfl
+
+/-- the chain of windows `(b0, ub[0]], (ub[0], ub[1]], ...` of a non-decreasing list partitions `(b0, last ub]`
+    (brackets open on one side and closed on the other; non-decreasing index) -/
+theorem chain_concat {α} (df : Rows α) (hs : (df.map (·.1)).Pairwise (· ≤ ·)) (l u : Bool) (hlu : l = !u) :
+    ∀ (ub : List Int) (b0 : Option Int) (hne : ub ≠ []), ub.Pairwise (· ≤ ·) → (∀ a, b0 = some a → a ≤ ub.head hne) →
+      (((optDate b0 :: ub.dropLast.map Bound.date).zip (ub.map Bound.date)).flatMap fun x =>
+        df.filter fun r => inWindow l u x.1 x.2 r.1) =
+      df.filter fun r => inWindow l u (optDate b0) (.date (ub.getLast hne)) r.1
+  | [b], b0, _, _, _ => by simp
+  | b :: c :: rest, b0, _, hp, h0 => by
+    have hp' := List.pairwise_cons.mp hp
+    have ih := chain_concat df hs l u hlu (c :: rest) (some b) (by simp) hp'.2 (by intro a ha; cases ha; exact hp'.1 c (by simp))
+    have hlast : b ≤ (c :: rest).getLast (by simp) := hp'.1 _ (List.getLast_mem _)
+    simp only [List.dropLast_cons_cons, List.map_cons, List.zip_cons_cons, List.flatMap_cons, List.getLast_cons_cons]
+    simp only [List.map_cons, optDate, List.zip_cons_cons, List.flatMap_cons] at ih
+    rw [ih, filter_append_ordered _ _ ?_ df hs]
+    · apply List.filter_congr
+      intro x _
+      have h0' := h0
+      subst hlu
+      cases b0 with
+      | none => rw [Bool.eq_iff_iff]; cases u <;> simp [inWindow, lbOk, ubOk, optDate] <;> omega
+      | some a =>
+        have := h0' a rfl
+        simp only [List.head_cons] at this
+        rw [Bool.eq_iff_iff]; cases u <;> simp [inWindow, lbOk, ubOk, optDate] <;> omega
+    · intro x y hx hy
+      subst hlu
+      cases u <;> simp [inWindow, lbOk, ubOk] at hx hy <;> omega
+
+/-- **slices_chained_partition**: a single series cut with both bounds as lists, the lower bounds being `b0` followed by the
+    upper bounds shifted by one (non-decreasing dates): the pieces `(b0, ub[0]], (ub[0], ub[1]], ...` partition the rows in
+    `(b0, last ub]` - their concatenation, which is what `df_slice` returns, is exactly that one slice -/
+theorem slices_chained_partition {α} (df : Rows α) (hs : (df.map (·.1)).Pairwise (· ≤ ·)) (b0 : Option Int) (ub : List Int)
+    (htwo : 2 ≤ ub.length) (hinc : nonDecreasing ub = true) (hne : ub ≠ []) (h0 : ∀ a, b0 = some a → a ≤ ub.head hne)
+    (oc : Option (List Char)) (l u : Bool) (hb : brackets oc = .ok (l, u)) (hlu : l = !u) :
+    slicesOfSeries df (.list (optDate b0 :: ub.dropLast.map Bound.date)) (.list (ub.map Bound.date)) oc =
+      .ok (.one (df.filter fun r => inWindow l u (optDate b0) (.date (ub.getLast hne)) r.1)) := by
+  have hnw : ∀ x ∈ (optDate b0 :: ub.dropLast.map Bound.date).zip (ub.map Bound.date), wraps x.1 x.2 = false := by
+    intro x hx
+    have := (List.of_mem_zip hx).2
+    simp only [List.mem_map] at this
+    obtain ⟨c, _, hc⟩ := this
+    unfold wraps
+    rw [← hc]
+    split
+    · rename_i h2; cases h2
+    · rfl
+  rw [slices_both_lists df _ _ (by simp; omega) (by simpa using htwo) oc l u hb (by intro x hx hw; rw [hnw x hx] at hw; cases hw)]
+  congr 2
+  rw [← chain_concat df hs l u hlu ub b0 hne (nonDecreasing_pairwise ub hinc) h0]
+  apply flatMap_congr_mem
+  intro x hx
+  apply List.filter_congr
+  intro r _
+  simp only [inWindowW, hnw x hx, Bool.false_eq_true, if_false, inWindow]
+
+example : slicesOfSeries [((0 : Int), 'a'), (3, 'b'), (5, 'c'), (7, 'd')] (.list [.none, .date 2]) (.list [.date 2, .date 5]) (some ['(', ']']) =
+    .ok (.one [(0, 'a'), (3, 'b'), (5, 'c')]) := by rfl
 
 end Pyg.Props.C13
